@@ -197,7 +197,7 @@ def sys_part(ctx):
     for proto in sysattr.PROTOS:
         for svc in ("messaging", "bytestream", "any", "bogus"):
             n += 1
-            addr = {"ux": "ux:verif-svc-%d-%d" % (ctx.seed, n), "uxf": "uxf:%s/svc%d" % (sysattr.rundir(ctx), n)}.get(proto, proto + ":127.0.0.1:0")
+            addr = {"ux": "ux:verif-svc-%d-%d" % (ctx.vseed, n), "uxf": "uxf:%s/svc%d" % (sysattr.rundir(ctx), n)}.get(proto, proto + ":127.0.0.1:0")
             cmds.append("SV server %s %s" % (addr, svc))
             ok = svc == "any" or (svc == "messaging") == (proto in MSG) and svc in ("messaging", "bytestream")
             exp.append(("SV", proto, svc, ok))
